@@ -139,8 +139,13 @@ DurCompound == { [k |-> "dur", pfx |-> "T", neg |-> FALSE, parts |-> ps, sep |->
                             <<<<<<2>>, <<>>, "m", "lower">>, <<<<5>>, <<5>>, "s", "lower">>>>,
                             <<<<<<1>>, <<>>, "s", "upper">>, <<<<5, 0, 0>>, <<>>, "ms", "upper">>>> },
                    sp \in {"", "_"} }
-DurLong == { [k |-> "dur", pfx |-> "T", neg |-> FALSE, parts |-> <<<<w, f, u, "lower">>>>, sep |-> ""] :
-               w \in {<<0>>, <<1>>}, f \in LongFracs, u \in {"d", "h", "m", "s", "ms"} }
+\* long fractions, positive and negative (a negative duration below one unit: the sign is not in the whole part), and
+\* digit-group underscores inside the fraction (5th element of a part: the underscore pattern of its fraction)
+DurLong == { [k |-> "dur", pfx |-> "T", neg |-> ng, parts |-> <<<<w, f, u, "lower">>>>, sep |-> ""] :
+               w \in {<<0>>, <<1>>}, f \in LongFracs, u \in {"d", "h", "m", "s", "ms"}, ng \in BOOLEAN }
+           \cup { [k |-> "dur", pfx |-> "T", neg |-> ng, parts |-> <<<<w, f, u, "lower", fus>>>>, sep |-> ""] :
+               w \in {<<0>>, <<1, 0>>}, f \in {<<2, 5>>, <<0, 0, 0, 5>>, <<1, 2, 3, 4, 5, 6>>}, u \in {"h", "s", "ms"}, ng \in BOOLEAN,
+               fus \in {"after1", "every3", "last"} }
 DurLits == DurSingle \cup DurCompound \cup DurLong
 
 UnitText(u, us) == IF us = "lower" THEN u ELSE IF u = "ms" THEN "MS" ELSE CHOOSE x \in UnitSpellings[u] : x # u
@@ -148,7 +153,8 @@ RECURSIVE PartsSpelling(_, _)
 PartsSpelling(ps, sep) ==
   IF ps = <<>> THEN <<>>
   ELSE LET p == Head(ps)
-       IN  Chars(p[1]) \o (IF p[2] = <<>> THEN <<>> ELSE <<".">> \o Chars(p[2])) \o <<UnitText(p[3], p[4])>>
+       IN  Chars(p[1]) \o (IF p[2] = <<>> THEN <<>> ELSE <<".">> \o WithUnderscores(Chars(p[2]), IF Len(p) >= 5 THEN p[5] ELSE "none"))
+           \o <<UnitText(p[3], p[4])>>
            \o (IF Tail(ps) = <<>> THEN <<>> ELSE (IF sep = "" THEN <<>> ELSE <<sep>>) \o PartsSpelling(Tail(ps), sep))
 DurSpelling(l) == <<l.pfx, "#">> \o (IF l.neg THEN <<"-">> ELSE <<>>) \o PartsSpelling(l.parts, l.sep)
 RECURSIVE SumNanos(_)
@@ -179,11 +185,11 @@ DateExpect(l) == IF ValidDate(l.y, l.m, l.d) THEN "accept" ELSE "reject"
 TodLits == { [k |-> "tod", pfx |-> p, h |-> h, mi |-> mi, s |-> s, f |-> f, pad |-> pd] :
                p \in {"TOD", "TIME_OF_DAY", "tod"}, h \in {0, 1, 23, 24}, mi \in {0, 59, 60}, s \in {0, 59, 60, 61, 255, 256, 300},
                f \in {<<>>, <<5>>, <<2, 5>>, <<9, 9, 9>>}, pd \in BOOLEAN }
-TodLong == { [k |-> "tod", pfx |-> "TOD", h |-> 10, mi |-> 11, s |-> 12, f |-> f, pad |-> TRUE] :
+TodLong == { [k |-> "tod", pfx |-> "TOD", h |-> 10, mi |-> 11, s |-> 12, f |-> f, pad |-> TRUE, fus |-> fu] : fu \in {"none", "after1"},
                f \in {<<1, 2, 3, 4, 5, 6, 7, 8, 9>>, Rep(0, 9) \o <<5>>, <<5>> \o Rep(0, 14), <<5>> \o Rep(0, 15),
                       <<0, 5>>, <<0, 0, 7>>, <<1, 2, 3, 4>>, <<1, 2, 3, 4, 5, 6>>, <<0, 0, 0, 0, 0, 1>>} }
 TodFields(l) == Num(l.h, IF l.pad THEN 2 ELSE 1) \o <<":">> \o Num(l.mi, IF l.pad THEN 2 ELSE 1) \o <<":">> \o Num(l.s, IF l.pad THEN 2 ELSE 1)
-                \o (IF l.f = <<>> THEN <<>> ELSE <<".">> \o Chars(l.f))
+                \o (IF l.f = <<>> THEN <<>> ELSE <<".">> \o WithUnderscores(Chars(l.f), IF "fus" \in DOMAIN l THEN l.fus ELSE "none"))
 TodSpelling(l) == <<l.pfx, "#">> \o TodFields(l)
 \* fraction as nanoseconds
 TodValue(l) == [h |-> l.h, mi |-> l.mi, s |-> l.s, nanos |-> Dec(Scale(Horner(l.f, 10), 9 - Len(l.f)))]
@@ -256,6 +262,7 @@ Labels(l) == {"lit:" \o l.k}
              \cup (IF l.k = "dur" /\ Len(l.parts) > 1 THEN {"dur:compound"} ELSE {})
              \cup (IF l.k = "dur" /\ Len(l.parts) = 1 THEN {"dur:unit:" \o l.parts[1][3]} ELSE {})
              \cup (IF l.k = "dur" /\ Len(l.parts) = 1 /\ l.parts[1][2] # <<>> THEN {"dur:fraction"} ELSE {})
+             \cup (IF l.k = "dur" /\ (\E i \in 1..Len(l.parts) : Len(l.parts[i]) >= 5) THEN {"dur:fraction-underscore"} ELSE {})
              \cup (IF l.k = "dur" /\ ~DurAllExact(l) THEN {"dur:subnano"} ELSE {})
              \cup (IF l.k = "dur" /\ (\E i \in 1..Len(l.parts) : Len(l.parts[i][2]) > 9) THEN {"dur:longfraction"} ELSE {})
              \cup (IF l.k = "tod" /\ ~FracExact(l.f) THEN {"tod:subnano"} ELSE {})
